@@ -175,14 +175,16 @@ class Extract:
     def has(self, fn):
         return fn in self.mod.functions
 
-    def run(self, fn, bufs, realmode=True, max_paths=512, scalars=()):
-        """bufs: [(name, n, prec)] pointer arguments in order; scalars: extra by-value fp args as var names."""
-        key = (fn, tuple(bufs), realmode)
+    def run(self, fn, bufs, realmode=True, max_paths=512, scalars=(), pre=None, pre_key=None):
+        """bufs: [(name, n, prec)] pointer arguments in order.  pre: optional function(to_z3) -> [z3 constraints], the contract
+        precondition used to guide exploration (only feasible branches are followed; symbolic truncations are enumerated)."""
+        key = (fn, tuple(bufs), realmode, pre_key)
         if key in self._paths:
             return self._paths[key]
         if fn not in self.mod.functions:
             raise Infra("function %s missing from IR of %s" % (fn, self.tu))
         ex = symex.Executor(self.mod, stubs=self.stubs, realmode=realmode)
+        ex.zpre = pre
 
         def mk(ex_, p):
             args = []
@@ -199,8 +201,44 @@ class Extract:
         except symex.Unsupported as e:
             raise Infra("symbolic execution of %s: %s" % (fn, e))
         pbufs = [b for b in bufs if b[1] is not None]
-        views = [PathView(self, p, pbufs) for p in paths]
+        views = [PathView(self, p, pbufs) for p in paths if p.status != "infeasible"]
         self._paths[key] = views
+        return views
+
+    def run_concolic(self, fn, bufs, envs):
+        """Paths of `fn` reached by the concrete samples `envs` (list of {var: float}); symbolic DAGs as in run()."""
+        if fn not in self.mod.functions:
+            raise Infra("function %s missing from IR of %s" % (fn, self.tu))
+        ex = symex.Executor(self.mod, stubs=self.stubs, realmode=True)
+
+        def mk(ex_, p):
+            args = []
+            for (nm, n, prec) in bufs:
+                if n is None and prec.startswith("int:"):
+                    args.append(int(prec[4:]) & 0xFFFFFFFF)
+                elif n is None:
+                    args.append(dag.var(nm, prec=prec))
+                else:
+                    args.append(symex.sym_buffer(ex_, nm, n, prec))
+            return args
+        full = []
+        for e in envs:
+            f = dict(e)
+            for (nm, n, prec) in bufs:
+                if n is not None and not prec.startswith("i"):
+                    for i in range(n):
+                        f.setdefault("%s%d" % (nm, i), 0.0)
+            full.append(f)
+        try:
+            paths = ex.explore_concolic(fn, mk, full)
+        except symex.Unsupported as e:
+            raise Infra("symbolic execution of %s: %s" % (fn, e))
+        pbufs = [b for b in bufs if b[1] is not None]
+        views = []
+        for p in paths:
+            v = PathView(self, p, pbufs)
+            v.samples = p.samples
+            views.append(v)
         return views
 
     def native(self, kind="so-gcc"):
@@ -289,7 +327,11 @@ def _is_sumsq(ctx, lp):
 
 def nf_prove(pairs, hyp=None, subst=None):
     """pairs: [(entry, lhs, rhs)].  Returns (ctx, [(entry, ok, msg)]).  Exceptions -> Infra at caller."""
-    ctx = poly.Ctx(subst=subst)
+    ctx = poly.Ctx()
+    if callable(subst):
+        ctx.subst = subst(ctx)
+    elif subst:
+        ctx.subst = subst
     if hyp:
         hyp(ctx)
     roots = [x for _, l, r in pairs for x in (l, r)]
@@ -469,7 +511,8 @@ def lp_to_z3(ctx, lp, zvars):
     import z3
     tot = z3.RealVal(0)
     for m, c in lp.t.items():
-        term = z3.RealVal(str(Fraction(c, lp.den)))
+        fr = Fraction(c, lp.den)
+        term = z3.Q(fr.numerator, fr.denominator)
         for i in range(len(ctx.names)):
             e = ((m >> (poly.BITS * i)) & poly.MASK) - poly.BIAS
             if e == 0:
